@@ -17,6 +17,7 @@ PLANS = {
     "C06": {"level": "exploration", "exhaustive": False, "legs": [leg("main")]},
     "C07": {"level": "exploration", "exhaustive": False, "legs": [leg("main")]},
     "C11": {"level": "exploration", "exhaustive": False, "legs": [leg("main"), leg("race", flavour="race", tiers=("thorough",), env={"VERIF_SMALL": "1"})]},
+    "C14": {"level": "fault_enumeration", "exhaustive": False, "legs": [leg("main"), leg("race", flavour="race", tiers=("thorough",), env={"VERIF_SMALL": "1"})]},
     "C15": {"level": "exploration", "exhaustive": False, "legs": [leg("main")]},
     "C16": {"level": "exploration", "exhaustive": False, "legs": [leg("main")]},
     "C19": {"level": "exploration", "exhaustive": False, "legs": [leg("main")]},
